@@ -242,6 +242,13 @@ def oem_group():
 
 
 # --------------------------------------------------------------------------- OMM
+def _tle_with(l1, l2):
+    """two 68-column TLE lines completed with their checksums"""
+    cs = lambda l: str((sum(int(c) for c in l if c.isdigit()) + l.count("-")) % 10)
+    assert len(l1) == 68 and len(l2) == 68, (len(l1), len(l2))
+    return l1 + cs(l1) + "\n" + l2 + cs(l2)
+
+
 def omm_group():
     from beyond.io import ccsds
     from beyond.io.tle import Tle
@@ -250,11 +257,14 @@ def omm_group():
         fmt = ["kvn", "xml"][choice("fmt", 2)]
         covf = [None, "same"][choice("cov", 2)]
         ud = choice("user_defined", 3)
-        which = choice("tle", 2)
+        which = choice("tle", 3)
         lines = ["ISS (ZARYA)\n1 25544U 98067A   08264.51782528 -.00002182  00000-0 -11606-4 0  2927\n"
                  "2 25544  51.6416 247.4627 0006703 130.5360 325.0288 15.72125391563537",
                  "GOES 9\n1 23581U 95025A   07064.44075725 -.00000113  00000-0  10000-3 0  9250\n"
-                 "2 23581   3.0539  81.7939 0005013 249.2363 150.1602  1.00273272 43169"][which]
+                 "2 23581   3.0539  81.7939 0005013 249.2363 150.1602  1.00273272 43169",
+                 # a decaying object: non-zero second derivative of the mean motion
+                 "DECAY\n" + _tle_with("1 25544U 98067A   08264.51782528  .00120000  12345-4  50000-3 0  292", 
+                                       "2 25544  51.6416 247.4627 0006703 130.5360 325.0288 16.1212539156353")][which]
         orb = Tle(lines).orbit()
         _attach_cov(orb, covf)
         UD = {0: None, 1: {"FOO": "bar"}, 2: {"FOO": "bar", "ANSWER": "42"}}[ud]
